@@ -1,10 +1,21 @@
 #!/bin/sh
 # tools/reseed_all.sh: re-run every stored seeded change against its own property's quick check
 # (must be caught) and every stored behaviour-preserving refactoring against all 20 (must be silent).
-cd /verif
+# With "snapshot" as first argument it works on copies (/tmp/verif_snap, /tmp/repo_snap) so that
+# /verif and /repo stay free while it runs (about two hours).
+if [ "$1" = "snapshot" ]; then
+  rm -rf /tmp/verif_snap /tmp/repo_snap
+  rsync -a --exclude .cache --exclude bin --exclude .git /verif/ /tmp/verif_snap/
+  git clone -q /repo /tmp/repo_snap
+  sed -i 's#=> /repo$#=> /tmp/repo_snap#' /tmp/verif_snap/go.mod
+  export VERIF_DIR=/tmp/verif_snap VERIF_REPO=/tmp/repo_snap
+fi
+V="${VERIF_DIR:-/verif}"
+cd "$V"
 for d in seeded/C*/; do
   n=$(basename $d); p=${n%%-*}
-  r=$(tools/tryseed.sh /verif/$d/patch.diff $p | cut -c1-160)
+  r=$(tools/tryseed.sh $V/$d/patch.diff $p | cut -c1-160)
   case "$r" in *"rc=1"*) echo "caught  $n $r";; *) echo "MISSED  $n $r";; esac
 done
-for f in seeded/benign/*.diff; do tools/trybenign.sh /verif/$f; done
+for f in seeded/benign/*.diff; do tools/trybenign.sh $V/$f; done
+[ "$1" = "snapshot" ] && rm -rf /tmp/verif_snap /tmp/repo_snap
